@@ -589,6 +589,15 @@ class Evaluator:
                 return sep.join(bytes(x) if isinstance(x, bytearray) else x for x in seq)
             except Exception:
                 raise Unsupported(e)
+        if isinstance(e, ast.Call) and ast.unparse(e.func) in ("calcsize", "struct.calcsize") and len(e.args) == 1 and not e.keywords and "calcsize" not in self.env:
+            import struct as _struct
+            fmt_v = self.ev(e.args[0])
+            if isinstance(fmt_v, str):
+                try:
+                    return _struct.calcsize(fmt_v)
+                except _struct.error:
+                    raise ModelRaise(Outcome("raise", "struct.error", e))
+            raise Unsupported(e)
         if isinstance(e, ast.Call) and ast.unparse(e.func) in ("math.ceil", "ceil") and len(e.args) == 1 and isinstance(e.args[0], ast.BinOp) and isinstance(e.args[0].op, ast.Div):
             a, b = self.ev(e.args[0].left), self.ev(e.args[0].right)
             if isinstance(a, int) and isinstance(b, int) and b > 0:
